@@ -69,8 +69,8 @@ def run(ctx):
         mach = importlib.import_module("checks.upv_machine")
     except ModuleNotFoundError:
         mach = None
-    if mach and not ctx.replay and hasattr(mach, "run_machine_grow"):
-        mach.run_machine_grow(ctx)
+    if mach and not ctx.replay:
+        mach.run_machine(ctx)     # real growValueStack driven through verif wrappers vs the Lean machine
     configs = CONFIGS_QUICK + ([] if ctx.quick else CONFIGS_MORE)
     if ctx.replay:
         inp = json.load(open(ctx.replay))["input"]
